@@ -53,11 +53,26 @@ def main():
     try:
         mod = importlib.import_module(f"checks.{a.prop.lower()}")
         ctx.lean = core.lean_obligations(a.prop, getattr(mod, "EXTRA_TARGETS", ()), recheck=ctx.thorough)
+        # extension modules checks/<prop>_ext_<area>.py: run_ext(ctx) adds the correspondence / failing-input search of one more
+        # modelled area; a case they register carries {"ext": "<area>"} so that a replay finds its way back
+        import glob
+        exts = {}
+        for f in sorted(glob.glob(os.path.join(os.path.dirname(os.path.abspath(__file__)), "checks", f"{a.prop.lower()}_ext_*.py"))):
+            area = os.path.basename(f)[len(a.prop) + 5:-3]
+            exts[area] = importlib.import_module(f"checks.{os.path.basename(f)[:-3]}")
         if a.replay:
             data = json.loads(open(a.replay).read())
-            mod.replay(ctx, data)
+            cases = ([data["input"]] if isinstance(data.get("input"), dict) else []) + \
+                    [d["input"] for d in data.get("correspondence", []) if isinstance(d.get("input"), dict)]
+            mine = [c for c in cases if c.get("ext") in exts]
+            for c in mine:
+                exts[c["ext"]].replay_ext(ctx, c)
+            if not mine:
+                mod.replay(ctx, data)
         else:
             mod.run(ctx)
+            for area, em in exts.items():
+                em.run_ext(ctx)
         sys.exit(ctx.finish())
     except core.Infra as e:
         print(f"INFRA: {e}")
